@@ -24,7 +24,6 @@ fn sized_jobs(prop: &str, max_ops: usize, cases: u64, flavours: &[&'static str])
         v.push(jobb(sized_engine("tokz", prop, max_ops), cases / 4, fl));
         v.push(jobb(sized_engine("plain8", prop, max_ops), cases / 4, fl));
         v.push(jobb(sized_engine("big", prop, max_ops), cases / 8, fl));
-        v.push(jobb(sized_engine("huge", prop, max_ops.min(32)), cases / 24, fl));
     }
     v
 }
@@ -440,6 +439,22 @@ pub fn plan(prop: &str, tier: Tier) -> Option<Plan> {
         };
         jobs.push(job(crate::accept::AcceptEngine { prop: p }, 0, "all"));
         rule.push_str(" | accept-probes: universally quantified generic functions (and payload classes the dynamic engines cannot instantiate, e.g. payloads borrowing from the deserializer's input) compiled by rustc against the rlib built from /repo; a rejection means a bound was tightened.");
+    }
+    // a payload of more than 64 KiB inline (code paths keyed on a size threshold). Appended after every other
+    // generated job so that the per-job seeds (derived from the job index) of the older jobs stay what they were.
+    if matches!(prop, "C01" | "C03" | "C04" | "C08" | "C09" | "C11" | "C12") {
+        let p: &'static str = match prop {
+            "C01" => "C01",
+            "C03" => "C03",
+            "C04" => "C04",
+            "C08" => "C08",
+            "C09" => "C09",
+            "C11" => "C11",
+            _ => "C12",
+        };
+        for fl in both {
+            jobs.push(jobb(sized_engine("huge", p, 32), if q { 250 } else { 20_000 }, fl));
+        }
     }
     if std::env::var_os("TV_BIN_TSAN").is_some() {
         let extra = tsn::jobs(prop, tier);
